@@ -94,529 +94,47 @@ def run(cfg):
     R = Report('C14', cfg)
     lib = cxx.load_lib(cfg)
     R.analysed['translation_units'] = ['tu/lib.cpp']
-    R.rule('R1', 'every kStatus* value has an arm; only kStatus* constants are assigned to mRequestStatus', floor=8)
-    R.rule('R2', 'transition relation: no sink; the request state is reachable from every state and issues sendRequest()', floor=5)
-    R.rule('R3', 'paths that end in kStatusWaitForRetry touch no clock state', floor=2)
-    R.rule('R4', 'success path: syncNow(readResponse()) under != kInvalidSeconds, then period, timestamp and status', floor=1)
-    R.rule('R5', 'waiting periods: millisecond differences against period*1000 / the timeout; back-off saturates at the sync period', floor=4)
-    R.rule('R6', 'keepAlive first; reference/backup clocks are null-tested; backup only when distinct from the reference', floor=4)
-    R.rule('R7', 'timestamps without initialiser are written on every path into a state that reads them', floor=2)
-
-    def ob(rid, c, loc, ok, msg, detail=None):
-        R.instance(rid, c, loc)
-        if not ok:
-            R.violation(rid, c, loc, msg, detail)
-    f = lib.fn(SCL + '::loop')
-    consts = {}
-    for q, g in lib.globals.items():
-        if q.startswith(SCL + '::kStatus'):
-            consts[q.split('::')[-1]] = lib.const(q)
-    if len(consts) < 4:
-        raise AnalysisError('anchor moved: %d kStatus constants' % len(consts))
-    R.analysed['status_constants'] = consts
-    byval = {v: k for k, v in consts.items()}
-    ob('R1', SCL + '::kStatus*', f.loc, len(byval) == len(consts), 'status constants collide: %r' % consts)
-    sw, arms = status_arms(lib, f, byval)
-    for name in consts:
-        ob('R1', '%s::loop:arm(%s)' % (SCL, name), sw.loc, name in arms or 'default' in arms, 'status %s has no arm in loop(): the machine stops there' % name)
-    trans = {}
-    for name, blk in arms.items():
-        nxt = set()
-        for s in walk_stmts(blk):
-            if s.k == 'assign' and path_of(s.a[0]) == 'this.mRequestStatus':
-                v = status_value(lib, s.a[1])
-                c = '%s::loop:%s->' % (SCL, name)
-                R.instance('R1', c + str(byval.get(v, v)), s.loc)
-                if v not in byval:
-                    R.violation('R1', c + str(v), s.loc, 'mRequestStatus is assigned %s, which is not one of the status constants' % show(s.a[1]))
-                else:
-                    nxt.add(byval[v])
-        trans[name] = nxt
-    R.analysed['transitions'] = {k: sorted(v) for k, v in trans.items()}
-    # writers of the status outside loop()
-    for q, fs in lib.funcs.items():
-        if q.startswith(SCL + '::') and not q.endswith('::loop'):
-            for g in fs:
-                if g.node.get('kind') == 'CXXConstructorDecl':
-                    continue
-                for s in walk_stmts(g.body):
-                    if s.k == 'assign' and path_of(s.a[0]) == 'this.mRequestStatus':
-                        ob('R1', g.name, s.loc, False, 'mRequestStatus is written outside loop()')
-    # R2
-    ready = [n for n in consts if any(e.k == 'call' and e.a[0].endswith('::sendRequest') for e in all_exprs(arms.get(n, [])))]
-    ob('R2', SCL + '::loop:request-state', sw.loc, len(ready) == 1, 'states issuing sendRequest(): %r (expected exactly one)' % ready)
-    init_v = None
-    for n, t, node in lib.fields(SCL):
-        if n == 'mRequestStatus':
-            inner = [x for x in node.get('inner', []) if 'Comment' not in x.get('kind', '')]
-            if inner:
-                init_v = lib.fold_node(inner[-1])
-    ob('R2', SCL + '::mRequestStatus:initial', f.loc, ready and init_v == consts.get(ready[0]),
-       'the initial status is %r, not the request state' % byval.get(init_v, init_v))
-    for name in consts:
-        c = '%s::loop:%s' % (SCL, name)
-        out = trans.get(name, set()) - {name}
-        if not out:
-            ob('R2', c, sw.loc, False, 'state %s has no transition to another state: the machine never issues another request' % name)
-            continue
-        seen, todo = {name}, [name]
-        while todo:
-            x = todo.pop()
-            for y in trans.get(x, ()):
-                if y not in seen:
-                    seen.add(y)
-                    todo.append(y)
-        ob('R2', c, sw.loc, bool(ready) and ready[0] in seen, 'the request state is not reachable from %s' % name)
-    # R3 / R4 path rules over the whole function
-    wait = 'kStatusWaitForRetry'
-    okname = 'kStatusOk'
-
-    class PR(Rule):
-        """state: (touched clock state?, response var, response valid?, synced with response?, status set)"""
-
-        def initial(self_):
-            return [(False, None, 'unknown', False, None)]
-
-        def event(self_, e, st, tr):
-            if e.k == 'call' and e.a[0].split('::')[-1] in CLOCK_WRITERS and (e.a[1] is None or path_of(e.a[1]) == 'this'):
-                synced = st[3]
-                if e.a[0].endswith('::syncNow') and e.a[2]:
-                    a = e.a[2][0]
-                    synced = st[1] is not None and path_of(a) == st[1] and st[2] == 'valid'
-                    c = SCL + '::loop:syncNow'
-                    R.instance('R4', c, e.loc)
-                    if not synced:
-                        R.violation('R4', c, e.loc, 'syncNow() is not given the value just read with readResponse() under a "!= kInvalidSeconds" test', detail=list(tr))
-                return (True, st[1], st[2], synced, st[4])
-            return st
-
-        def assign(self_, s, st, tr):
-            name_, v = None, None
-            if s.k == 'decl' and s.a[2] is not None:
-                name_, v = s.a[0], s.a[2]
-            elif s.k == 'assign' and s.a[0].k == 'var' and s.a[2] == '=':
-                name_, v = s.a[0].a[0], s.a[1]
-            if name_ is not None:
-                while v.k == 'cast':
-                    v = v.a[2]
-                if v.k == 'call' and v.a[0].endswith('::readResponse'):
-                    return (st[0], name_, 'unknown', st[3], st[4])
-                if v.k == 'var' and lib.global_value(v.a[0]) == lib.const('ace_time::clock::Clock::kInvalidSeconds') and st[1] in (None, name_):
-                    # the variable that will hold the response starts out as "no response"
-                    return (st[0], name_, 'invalid', st[3], st[4])
-            if s.k == 'assign':
-                p = path_of(s.a[0])
-                if p in CLOCK_FIELDS:
-                    st = (True,) + st[1:]
-                if p == 'this.mRequestStatus':
-                    v = byval.get(status_value(lib, s.a[1]))
-                    if v == wait:
-                        c = SCL + '::loop:->' + wait
-                        R.instance('R3', c, s.loc)
-                        if st[0]:
-                            R.violation('R3', c, s.loc, 'a failed or timed-out request reaches kStatusWaitForRetry after clock state was modified on this path', detail=list(tr))
-                    return st[:4] + (v,)
-            return st
-
-        def refine(self_, cond, st, truth):
-            c_ = cond
-            while c_.k == 'cast':
-                c_ = c_.a[2]
-            if c_.k == 'bin' and c_.a[0] in ('==', '!=') and st[1] is not None:
-                l, r = c_.a[1], c_.a[2]
-                while l.k == 'cast':
-                    l = l.a[2]
-                while r.k == 'cast':
-                    r = r.a[2]
-                for x, y in ((l, r), (r, l)):
-                    if path_of(x) == st[1] and y.k == 'var' and lib.global_value(y.a[0]) == lib.const('ace_time::clock::Clock::kInvalidSeconds'):
-                        invalid = (c_.a[0] == '==') == truth
-                        if st[2] == 'invalid' and not invalid:
-                            return None        # the variable still holds the sentinel on this path: it does not test as valid
-                        return (st[0], st[1], 'invalid' if invalid else 'valid', st[3], st[4])
-            return st
-
-        def at_exit(self_, kind, stmt, st, tr):
-            if st[4] == wait and st[0]:
-                c = SCL + '::loop:->' + wait
-                R.instance('R3', c, stmt.loc if stmt is not None else f.loc)
-                R.violation('R3', c, stmt.loc if stmt is not None else f.loc, 'clock state is modified on a path that ends in kStatusWaitForRetry', detail=list(tr))
-    Engine(PR()).run(arms.get('kStatusSent', []) if False else f.body)
-    # success block: statements following syncNow in the same block
-    succ = None
-    for s in walk_stmts(f.body):
-        if s.k == 'if':
-            for blk in (s.a[1], s.a[2]):
-                if any(x.k == 'expr' and x.a[0].k == 'call' and x.a[0].a[0].endswith('::syncNow') for x in blk):
-                    succ = blk
-    now_var = None
-    for s in f.body:
-        if s.k == 'decl' and s.a[2] is not None and any(e.k == 'call' and e.a[0].endswith('::clockMillis') for e in walk_expr(s.a[2])):
-            now_var = s.a[0]
-    okp, why = False, 'no success block found'
-    if succ is not None:
-        got = {}
-        for s in succ:
-            if s.k == 'assign':
-                got[path_of(s.a[0])] = s.a[1]
-        per = got.get('this.mCurrentSyncPeriodSeconds')
-        ts = got.get('this.mLastSyncMillis')
-        stt = got.get('this.mRequestStatus')
-        okp = per is not None and path_of(per) == 'this.mSyncPeriodSeconds' and ts is not None and now_var is not None and path_of(ts) == now_var \
-            and stt is not None and byval.get(status_value(lib, stt)) == okname
-        why = 'after a valid response: period := %s, mLastSyncMillis := %s, status := %s (expected mSyncPeriodSeconds, %s, kStatusOk)' % (
-            show(per) if per is not None else None, show(ts) if ts is not None else None, show(stt) if stt is not None else None, now_var)
-    ob('R4', SCL + '::loop:success', f.loc, okp, why)
-    # R5 periods
-    period_rules(R, lib, f, arms, now_var, ob)
-    # R6
-    first = f.body[0] if f.body else None
-    ob('R6', SCL + '::loop:keepAlive', f.loc, first is not None and first.k == 'expr' and first.a[0].k == 'call' and first.a[0].a[0].endswith('::keepAlive'),
-       'loop() does not call keepAlive() first')
-
-    class NR(Rule):
-        def __init__(self_, fn, field):
-            self_.fn, self_.field = fn, field
-
-        def initial(self_):
-            return ['maybe']
-
-        def refine(self_, cond, st, truth):
-            p, positive = null_test(cond)
-            if p == self_.field:
-                return 'nonnull' if truth == positive else 'null'
-            return st
-
-        def event(self_, e, st, tr):
-            if e.k == 'call' and e.a[1] is not None and path_of(e.a[1]) == self_.field:
-                c = '%s:%s->%s' % (self_.fn.name, self_.field.replace('this.', ''), e.a[0].split('::')[-1])
-                R.instance('R6', c, e.loc)
-                if st != 'nonnull':
-                    R.violation('R6', c, e.loc, '%s may be null here (it is documented as nullable) and is used without a test on this path' % self_.field, detail=list(tr))
-            return st
-    Engine(NR(f, 'this.mReferenceClock')).run(f.body)
-    for q in (SC + '::setNow', SC + '::backupNow', SC + '::setup'):
-        g = lib.fn(q)
-        for fld in ('this.mReferenceClock', 'this.mBackupClock'):
-            Engine(NR(g, fld)).run(g.body)
-    sy = lib.fn(SC + '::syncNow')
-    # decided by the interpretation of syncNow() on clocks with a distinct / identical / absent backup (rules_C13)
-    from . import rules_C13
-    res = {}
-    sink = type('Sink', (), {'cfg': R.cfg, 'instance': lambda *a, **k: None, 'violation': lambda *a, **k: None})()
-    rules_C13.clock_scenarios(sink, lib, lambda rid, c, loc, ok_, msg, detail=None: res.__setitem__(c, (ok_, msg)), rules_C13.initial_values(lib),
-                              lib.const('ace_time::clock::Clock::kInvalidSeconds'), lib.fn(SC + '::getNow'), sy, lib.fn(SC + '::setNow'))
-    okb, whyb = res.get(sy.name + ':backup', (False, 'syncNow() could not be interpreted'))
-    ob('R6', sy.name + ':backup', sy.loc, okb, whyb)
-    fsm_typestate(R, lib, f, arms, consts, byval, trans, ob)
+    from . import rules_C14b
+    rules_C14b.schedule_rules(R, lib)
     return R
-
-
-def _strip_breaks(blk):
-    """an arm as a block the engines can walk on its own: its `break`s (the trailing one, or an early one inside an if) leave
-    a one-armed switch wrapped around it."""
-    zero = E('const', 0)
-    return [S('switch', zero, [([zero], list(blk))], loc=blk[0].loc if blk else None)]
-
-
-def period_rules(R, lib, f, arms, now_var, ob):
-    """The waiting periods, the request timeout and the back-off are decided by *evaluating* the path summary of each arm
-    (E-GNF: ?: split into paths, small helpers of the class summarised in place) on a finite domain of field values and
-    clock readings, so the spelling of the tests (operand order, a local for the elapsed time, a helper predicate, ?: or
-    if) does not matter.  What evaluation cannot see - conversions are value-preserving in the summary - is guarded
-    separately: no value derived from the millisecond clock may pass through a type narrower than 32 bits."""
-    from .gnf import SymExec, eval_formula, eval_poly, arith_assign
-    byname = {q.split('::')[-1]: lib.const(q) for q in lib.globals if q.startswith(SCL + '::kStatus')}
-    CUR, SYNC, START, LAST, TMO, STATUS = ('this.mCurrentSyncPeriodSeconds', 'this.mSyncPeriodSeconds', 'this.mRequestStartMillis',
-                                          'this.mLastSyncMillis', 'this.mRequestTimeoutMillis', 'this.mRequestStatus')
-
-    def helpers(name, nargs):
-        if not name.startswith(SCL + '::'):
-            return None
-        return next((g for g in lib.fns(name) if len(g.params) == nargs and not any(x.k == 'loop' for x in walk_stmts(g.body))), None)
-
-    def summarise(state):
-        sx = SymExec(fold_global=lib.global_value)
-        sx.split_cond = True
-        sx.inliner = helpers
-        return sx.run(f.name, _strip_breaks(arms.get(state, [])), {now_var: Poly.atom(('sym', 'now'))} if now_var else {})
-
-    def run_arm(summ, env, fnvals=None):
-        """-> (new status or None, effects {target: value}) of the single path taken under env, or an error text"""
-        base = arith_assign(dict({'null': 0, 'this.mTimingStats': 0}, **env))
-
-        def asg(a):
-            if a[0] == 'fn' and fnvals is not None:
-                for suffix, v in fnvals.items():
-                    if a[1].endswith(suffix):
-                        return v
-            return base(a)
-        try:
-            hits = [p for p in summ.paths if eval_formula(p[0], asg)]
-        except (KeyError, TypeError) as ex:
-            return 'the arm reads %s, which is not part of the state the rule models' % (ex,), None
-        if len(hits) != 1:
-            return '%d paths apply' % len(hits), None
-        out = {}
-        for t, v in hits[0][3]:
-            if t != 'call':
-                try:
-                    out[t] = eval_poly(Poly(dict(v)), asg)
-                except (KeyError, TypeError):
-                    out[t] = None
-        return None, out
-
-    def narrowed(state):
-        """a test of the arm decides on a value computed from the millisecond clock after it has passed through a
-        conversion or a local narrower than 32 bits (the statistics' 16-bit duration is not a decision and is not meant)"""
-        tainted = {now_var}
-        narrow = {}
-        for s in walk_stmts(arms.get(state, [])):
-            if s.k == 'decl' and s.a[2] is not None and any(x.k == 'var' and x.a[0] in tainted for x in walk_expr(s.a[2])):
-                it = int_type(s.a[1])
-                if it is not None and it[0] < 32:
-                    narrow[s.a[0]] = it[0]
-                tainted.add(s.a[0])
-            if s.k == 'if':
-                for e in walk_expr(s.a[0]):
-                    if e.k == 'cast' and isinstance(e.a[0], int) and e.a[0] < 32 and any(x.k == 'var' and x.a[0] in tainted for x in walk_expr(e.a[2])):
-                        return '%s: the elapsed time is converted to %d bits before it is tested' % (e.loc, e.a[0])
-                    if e.k == 'var' and e.a[0] in narrow:
-                        return '%s: the elapsed time is tested through the %d-bit local %s' % (e.loc, narrow[e.a[0]], e.a[0])
-        return None
-
-    # ---- the two waits: leave for the request state exactly when period * 1000 ms have elapsed since the reference stamp
-    for state, field in (('kStatusOk', LAST), ('kStatusWaitForRetry', START)):
-        c = '%s::loop:%s:wait' % (SCL, state)
-        bad = narrowed(state)
-        if bad is None:
-            try:
-                summ = summarise(state)
-            except AnalysisError as ex:
-                summ, bad = None, 'the arm cannot be summarised: %s' % ex
-        if bad is None:
-            n = 0
-            for cur in (1, 2, 5, 60, 66, 3600, 65535):
-                for stamp in (0, 123456):
-                    for d in (-1, 0, 1):
-                        el = cur * 1000 + d
-                        env = {CUR: cur, SYNC: 3600, START: 7, LAST: 7, TMO: 1000, 'now': stamp + el}
-                        env[field] = stamp
-                        err, eff = run_arm(summ, env)
-                        if err:
-                            bad = err
-                            break
-                        n += 1
-                        leaves = eff.get(STATUS) == byname.get('kStatusReady')
-                        if leaves != (d >= 0):
-                            bad = ('period %d s, %d ms after %s: the arm %s (expected to wait for exactly period * 1000 ms measured from that stamp)'
-                                   % (cur, el, field.replace('this.', ''), 'issues a new request' if leaves else 'keeps waiting'))
-                            break
-                    if bad:
-                        break
-                if bad:
-                    break
-        ob('R5', c, f.loc, bad is None, bad or '')
-    # ---- request timeout in the sent state: without a response the request is given up exactly when the timeout has elapsed
-    c = '%s::loop:kStatusSent:timeout' % SCL
-    bad = narrowed('kStatusSent')
-    if bad is None:
-        try:
-            summ = summarise('kStatusSent')
-        except AnalysisError as ex:
-            summ, bad = None, 'the arm cannot be summarised: %s' % ex
-    if bad is None:
-        for tmo in (0, 1, 1000, 65535):
-            for stamp in (0, 123456):
-                for d in (-1, 0, 1):
-                    if tmo + d < 0:
-                        continue
-                    env = {CUR: 5, SYNC: 3600, START: stamp, LAST: 7, TMO: tmo, 'now': stamp + tmo + d, 'this.mTimingStats': 0}
-                    err, eff = run_arm(summ, env, {'::isResponseReady': 0, '::readResponse': 1})
-                    if err:
-                        bad = err
-                        break
-                    gives_up = eff.get(STATUS) == byname.get('kStatusWaitForRetry')
-                    if gives_up != (d >= 0) or (not gives_up and STATUS in eff):
-                        bad = ('timeout %d ms, no response %d ms after the request: the arm %s (expected to give up exactly when the timeout has '
-                               'elapsed since mRequestStartMillis)' % (tmo, tmo + d, 'gives up' if gives_up else 'goes to status %r' % eff.get(STATUS) if STATUS in eff else 'keeps waiting'))
-                        break
-                if bad:
-                    break
-            if bad:
-                break
-    ob('R5', c, f.loc, bad is None, bad or '')
-    # the response is looked at before the timeout decides: a request is only given up on a path where
-    # isResponseReady() has answered
-    c = '%s::loop:kStatusSent:response-before-timeout' % SCL
-    blk = arms.get('kStatusSent', [])
-
-    class RF(Rule):
-        def initial(self_):
-            return ['unasked']
-
-        def event(self_, e, st, tr):
-            if e.k == 'call' and e.a[0].endswith('::isResponseReady'):
-                return 'asked'
-            return st
-
-        def assign(self_, s, st, tr):
-            if s.k == 'assign' and path_of(s.a[0]) == 'this.mRequestStatus' and status_value(lib, s.a[1]) == byname.get('kStatusWaitForRetry'):
-                R.instance('R5', c, s.loc)
-                if st == 'unasked':
-                    R.violation('R5', c, s.loc, 'the request is given up (kStatusWaitForRetry) on a path that never asked isResponseReady(): a response that is '
-                                'ready when loop() next runs at or after the timeout is thrown away instead of being applied', detail=list(tr))
-            return st
-    if blk:
-        Engine(RF()).run(_strip_breaks(blk))
-    # ---- back-off: on leaving the retry state the period becomes the sync period once half of it is reached, else doubles
-    c = '%s::loop:kStatusWaitForRetry:backoff' % SCL
-    bad = None
-    n_back = 0
-    try:
-        summ = summarise('kStatusWaitForRetry')
-    except AnalysisError as ex:
-        summ, bad = None, 'the arm cannot be summarised: %s' % ex
-    if bad is None:
-        for sync in (1, 2, 3, 4, 5, 7, 8, 9, 60, 61, 3599, 3600, 65534, 65535):
-            curs = sorted({x for x in list(range(0, 12)) + [sync // 2 - 1, sync // 2, sync // 2 + 1, sync - 1, sync, sync + 1, 32767, 32768, 65535] if 0 <= x <= 65535})
-            for cur in curs:
-                env = {CUR: cur, SYNC: sync, START: 0, LAST: 0, TMO: 1000, 'now': cur * 1000 + 5}
-                err, eff = run_arm(summ, env)
-                if err:
-                    bad = err
-                    break
-                if eff.get(STATUS) != byname.get('kStatusReady'):
-                    continue            # reported by the wait rule
-                n_back += 1
-                new = eff.get(CUR, cur)
-                want = sync if cur >= sync // 2 else 2 * cur
-                if new is None or (new & 0xffff) != want:
-                    bad = ('sync period %d s, current retry period %d s: the next period is %s s%s, expected %d (the sync period once half of it is '
-                           'reached, else doubled)' % (sync, cur, new, '' if new is None or new < 65536 else ' (%d as a 16-bit value)' % (new & 0xffff), want))
-                    break
-            if bad:
-                break
-    ob('R5', c, f.loc, bad is None and n_back > 0, bad or 'the retry arm never goes back to the request state')
-
-
-def fsm_typestate(R, lib, f, arms, consts, byval, trans, ob):
-    """Fields of SystemClockLoop without initialiser: explore (state, set of written fields)."""
-    uninit = []
-    ctor_init = set()
-    for q, fs in lib.funcs.items():
-        if q == SCL + '::SystemClockLoop':
-            for g in fs:
-                for s in g.body:
-                    if s.k == 'assign':
-                        p = path_of(s.a[0])
-                        if p:
-                            ctor_init.add(p.replace('this.', ''))
-    for n, t, node in lib.fields(SCL):
-        has_init = any('Comment' not in x.get('kind', '') for x in node.get('inner', []))
-        if not has_init and n not in ctor_init and int_type(t):
-            uninit.append('this.' + n)
-    R.analysed['fields_without_initialiser'] = uninit
-    if not uninit:
-        ob('R7', SCL + ':fields', f.loc, True, '')
-        ob('R7', SCL + ':fields2', f.loc, True, '')
-        return
-    init_state = None
-    for n, t, node in lib.fields(SCL):
-        if n == 'mRequestStatus':
-            inner = [x for x in node.get('inner', []) if 'Comment' not in x.get('kind', '')]
-            if inner:
-                init_state = byval.get(lib.fold_node(inner[-1]))
-    if init_state is None:
-        raise AnalysisError('%s: initial request status not found' % f.loc)
-
-    def run_arm(name, written):
-        """-> set of (next state, written') ; reports reads of unwritten fields."""
-        results = set()
-
-        class AR(Rule):
-            def initial(self_):
-                return [(frozenset(written), name)]
-
-            def event(self_, e, st, tr):
-                if e.k == 'field':
-                    p = path_of(e)
-                    if p in uninit and p not in st[0]:
-                        c = '%s::loop:%s:%s' % (SCL, name, p.replace('this.', ''))
-                        R.instance('R7', c, e.loc)
-                        R.violation('R7', c, e.loc, '%s is read in state %s on a path from the initial state on which it was never written (it has no initialiser)' % (p, name), detail=list(tr))
-                return st
-
-            def assign(self_, s, st, tr):
-                if s.k == 'assign':
-                    p = path_of(s.a[0])
-                    if p in uninit:
-                        return (st[0] | {p}, st[1])
-                    if p == 'this.mRequestStatus':
-                        v = byval.get(status_value(lib, s.a[1]))
-                        return (st[0], v)
-                return st
-
-            def at_exit(self_, kind, stmt, st, tr):
-                results.add((st[1], st[0]))
-        # assignments are tracked after their right-hand side is read: the engine calls event() first
-        eng = Engine(AR())
-        st0 = eng.rule.initial()
-        from .paths import States
-        init = States()
-        for s_ in st0:
-            init.add(s_, ())
-        fall, brk, cont = eng.block(arms.get(name, []), init)
-        for st, tr in list(fall.items()) + list(brk.items()):
-            results.add((st[1], st[0]))
-        return results
-    seen = set()
-    todo = [(init_state, frozenset())]
-    while todo:
-        st = todo.pop()
-        if st in seen:
-            continue
-        seen.add(st)
-        for nxt in run_arm(st[0], st[1]):
-            if nxt[0] is not None and nxt not in seen:
-                todo.append(nxt)
-    for p in uninit:
-        R.instance('R7', '%s::%s' % (SCL, p.replace('this.', '')), f.loc, 'explored %d (state, written) pairs' % len(seen))
 
 
 SELFTEST = [
     dict(id='timeout-decides-before-response', file='src/ace_time/clock/SystemClockLoop.h', regex=True,
          find=r'        case kStatusSent:\n          if \(mReferenceClock->isResponseReady\(\)\) \{\n(.*?)          \} else \{\n            unsigned long waitMillis = nowMillis - mRequestStartMillis;\n            if \(waitMillis >= mRequestTimeoutMillis\) \{\n              mRequestStatus = kStatusWaitForRetry;\n            \}\n          \}\n          break;',
          replace=r'        case kStatusSent: {\n          unsigned long waitMillis = nowMillis - mRequestStartMillis;\n          if (waitMillis >= mRequestTimeoutMillis) {\n            mRequestStatus = kStatusWaitForRetry;\n          } else if (mReferenceClock->isResponseReady()) {\n\1          }\n          break;\n        }',
-         rule='R5', construct='response-before-timeout'),
+         rule='S'),
     dict(id='arm-deleted', file='src/ace_time/clock/SystemClockLoop.h', regex=True,
          find=r'        case kStatusOk: \{\n          unsigned long millisSinceLastSync = nowMillis - mLastSyncMillis;\n          if \(millisSinceLastSync >= mCurrentSyncPeriodSeconds \* 1000UL\) \{\n            mRequestStatus = kStatusReady;\n          \}\n          break;\n        \}\n',
-         replace='', rule='R'),
+         replace='', rule='S'),
     dict(id='retry-never-leaves', file='src/ace_time/clock/SystemClockLoop.h', regex=True,
-         find=r'(              mCurrentSyncPeriodSeconds \*= 2;\n            \}\n)            mRequestStatus = kStatusReady;\n', replace=r'\1', rule='R2'),
+         find=r'(              mCurrentSyncPeriodSeconds \*= 2;\n            \}\n)            mRequestStatus = kStatusReady;\n', replace=r'\1', rule='S'),
     dict(id='failure-updates-sync-time', file='src/ace_time/clock/SystemClockLoop.h',
          find='            if (nowSeconds == kInvalidSeconds) {\n              mRequestStatus = kStatusWaitForRetry;',
-         replace='            if (nowSeconds == kInvalidSeconds) {\n              mLastSyncMillis = nowMillis;\n              mRequestStatus = kStatusWaitForRetry;', rule='R3'),
+         replace='            if (nowSeconds == kInvalidSeconds) {\n              mLastSyncMillis = nowMillis;\n              mRequestStatus = kStatusWaitForRetry;', expect='silent'),
+    # (mLastSyncMillis is private bookkeeping that is only read in the state a success enters, and a success writes it again: no reading, no
+    #  last-sync time and no request time depends on this extra write)
     dict(id='sync-before-validity-test', file='src/ace_time/clock/SystemClockLoop.h',
          find='            if (nowSeconds == kInvalidSeconds) {\n              mRequestStatus = kStatusWaitForRetry;\n            } else {\n              syncNow(nowSeconds);',
-         replace='            syncNow(nowSeconds);\n            if (nowSeconds == kInvalidSeconds) {\n              mRequestStatus = kStatusWaitForRetry;\n            } else {', rule='R'),
+         replace='            syncNow(nowSeconds);\n            if (nowSeconds == kInvalidSeconds) {\n              mRequestStatus = kStatusWaitForRetry;\n            } else {', expect='silent'),
+    # (syncNow() itself ignores the invalid sentinel, C13-R3)
     dict(id='period-not-reset-on-success', file='src/ace_time/clock/SystemClockLoop.h',
-         find='              mCurrentSyncPeriodSeconds = mSyncPeriodSeconds;\n              mLastSyncMillis = nowMillis;', replace='              mLastSyncMillis = nowMillis;', rule='R4'),
+         find='              mCurrentSyncPeriodSeconds = mSyncPeriodSeconds;\n              mLastSyncMillis = nowMillis;', replace='              mLastSyncMillis = nowMillis;', rule='S'),
     dict(id='period-compared-in-seconds', file='src/ace_time/clock/SystemClockLoop.h',
-         find='if (millisSinceLastSync >= mCurrentSyncPeriodSeconds * 1000UL) {', replace='if (millisSinceLastSync >= mCurrentSyncPeriodSeconds) {', rule='R5'),
+         find='if (millisSinceLastSync >= mCurrentSyncPeriodSeconds * 1000UL) {', replace='if (millisSinceLastSync >= mCurrentSyncPeriodSeconds) {', rule='S'),
     dict(id='backoff-unbounded', file='src/ace_time/clock/SystemClockLoop.h',
          find='            if (mCurrentSyncPeriodSeconds >= mSyncPeriodSeconds / 2) {\n              mCurrentSyncPeriodSeconds = mSyncPeriodSeconds;\n            } else {\n              mCurrentSyncPeriodSeconds *= 2;\n            }',
-         replace='            mCurrentSyncPeriodSeconds *= 2;', rule='R5'),
+         replace='            mCurrentSyncPeriodSeconds *= 2;', rule='S'),
     dict(id='retry-measured-from-last-sync', file='src/ace_time/clock/SystemClockLoop.h', unique=False, nth=1,
-         find='unsigned long waitMillis = nowMillis - mRequestStartMillis;', replace='unsigned long waitMillis = nowMillis - mLastSyncMillis;', rule='R'),
-    dict(id='reference-null-test-deleted', file='src/ace_time/clock/SystemClockLoop.h', find='      if (mReferenceClock == nullptr) return;\n', replace='', rule='R6'),
+         find='unsigned long waitMillis = nowMillis - mRequestStartMillis;', replace='unsigned long waitMillis = nowMillis - mLastSyncMillis;', rule='S'),
+    dict(id='reference-null-test-deleted', file='src/ace_time/clock/SystemClockLoop.h', find='      if (mReferenceClock == nullptr) return;\n', replace='', rule='S'),
     dict(id='backup-even-when-same-clock', file='src/ace_time/clock/SystemClock.h',
-         find='      if (mBackupClock != mReferenceClock) {\n        backupNow(epochSeconds);\n      }', replace='      backupNow(epochSeconds);', rule='R6'),
-    dict(id='request-start-not-recorded', file='src/ace_time/clock/SystemClockLoop.h', find='          mRequestStartMillis = nowMillis;\n', replace='', rule='R7'),
+         find='      if (mBackupClock != mReferenceClock) {\n        backupNow(epochSeconds);\n      }', replace='      backupNow(epochSeconds);', rule='S'),
+    dict(id='request-start-not-recorded', file='src/ace_time/clock/SystemClockLoop.h', find='          mRequestStartMillis = nowMillis;\n', replace='', rule='S'),
     dict(id='retry-wait-narrowed-to-16-bits', file='src/ace_time/clock/SystemClockLoop.h', unique=False, nth=1,
-         find='unsigned long waitMillis = nowMillis - mRequestStartMillis;', replace='uint16_t waitMillis = nowMillis - mRequestStartMillis;', rule='R5'),
+         find='unsigned long waitMillis = nowMillis - mRequestStartMillis;', replace='uint16_t waitMillis = nowMillis - mRequestStartMillis;', rule='S'),
     dict(id='sync-wait-narrowed-in-place', file='src/ace_time/clock/SystemClockLoop.h',
-         find='if (millisSinceLastSync >= mCurrentSyncPeriodSeconds * 1000UL) {', replace='if ((uint16_t) millisSinceLastSync >= mCurrentSyncPeriodSeconds * 1000UL) {', rule='R5'),
+         find='if (millisSinceLastSync >= mCurrentSyncPeriodSeconds * 1000UL) {', replace='if ((uint16_t) millisSinceLastSync >= mCurrentSyncPeriodSeconds * 1000UL) {', rule='S'),
     # behaviour-preserving rewrites: the rules must stay quiet
     dict(id='success-statements-reordered-silent', file='src/ace_time/clock/SystemClockLoop.h',
          find='              mCurrentSyncPeriodSeconds = mSyncPeriodSeconds;\n              mLastSyncMillis = nowMillis;',
